@@ -36,8 +36,7 @@ Definition ncandidates (g : grammar) (rn : option (list nat)) (st : state) (a : 
 
 (* 0 = not a two-candidate conflict (or Accept involved)
    1 = shift/reduce, real cell is the documented one
-   2 = shift/reduce, real cell differs, conflict decided by a terminal-level associativity
-   3 = shift/reduce, real cell differs, any other conflict
+   3 = shift/reduce, real cell differs
    4 = lookup failure (malformed dump)
    5 = reduce/reduce, real cell is the documented one
    6 = reduce/reduce, real cell differs *)
@@ -57,9 +56,7 @@ Definition doc_cell_code (g : grammar) (cfg : rsettings) (rn : option (list nat)
                               (rs_prefer_shifts cfg) (rs_prefer_shifts_over_empty cfg)
                               (p_nops pr) (p_nopse pr) in
               let expected := apply_decision d (Shift (shift_target real)) (Reduce (i_prod it) (i_pos it)) in
-              if list_eqb action_eqb real expected then 1
-              else if term_assoc_decides_b (p_prio pr) sprio (t_assoc tm) then 2
-              else 3
+              if list_eqb action_eqb real expected then 1 else 3
           | _, _, _ => 4
           end
         else 0
